@@ -67,7 +67,11 @@ package swagen31
 //@ extern github.com/pb33f/libopenapi/datamodel/high/v3.Document.RenderJSON
 //@ emits rendered31(d.Version, d.Info.Title, d.Info.Description, d.Info.TermsOfService, d.Info.Version, len(d.Servers), d.Servers[0].URL)
 
-//@ func GenerateSpec props C08,C20,C01,C14
+//@ func GenerateSpec props C08,C20,C01,C13,C14
+// the bytes that leave the generator went through the canonical re-ordering, whatever the models are (C13: insertion
+// order of aliases and of OAuth scopes is not canonical)
+//@ mayemit orderedJSON
+//@ ensures canonical: implies(result1 == nil, evcount(orderedJSON) == old(evcount(orderedJSON))+1)
 //@ modifies any(v3.PathItem), any(elems(map[string]*v3.PathItem)), any(definitions.TypeMetadata.Name), any(elems(map[string]*v3.Response)), any(elems([]*v3.Parameter)), any(base.Schema.Format), any(base.Schema.ExclusiveMinimum), any(base.Schema.Minimum), any(base.Schema.ExclusiveMaximum), any(base.Schema.Maximum), any(base.Schema.MinLength), any(base.Schema.MaxLength), any(base.Schema.Pattern), any(base.Schema.MinItems), any(base.Schema.MaxItems), any(base.Schema.UniqueItems), any(base.Schema.Enum), any(elems([]*yaml.Node)), any(base.Schema.Description), any(base.Schema.Required), any(base.Schema.Properties), any(elems([]string)), any(elems(map[string]*base.SchemaProxy)), any(elems(map[string]*v3.MediaType)), any(base.Schema), any(elems(map[string]interface{})), any(elems([]interface{}))
 //@ requires config != nil && models != nil
 //@ requires swagtool.emittable(defs)
